@@ -46,7 +46,14 @@ META = dict(
          "acceptance - clause burst-order names the case 'all there, wrong order') or by Close with the tail still queued "
          "(those present in order); size rule with dozens of rotations inside a flood, gzip + clean-up racing, 1 MB (no "
          "rotation), daily rule with and without a day change before the flood. The barrier is bounded (ShallRotate call count, "
-         "falling back to 'queue empty and every writer goroutine parked in its select'): the files decide. Not covered: a run that spans local midnight; bursts in "
+         "falling back to 'queue empty and every writer goroutine parked in its select'): the files decide. (9) 'hours' "
+         "(size rule, maxBackups, names 'hours'): the HOUR OF THE DAY of the instants the backups stand for is a dimension - "
+         "the k-th file is started rot[k] hours after a base midnight (00, 01, 09, 11, 12, 13, 14, 23 h on one date and across "
+         "dates, starts 12 h / 24 h apart; the backup name is the real rule's for that instant), pre-existing backups named in "
+         "RFC 3339 for given hours; 'hourage': days=2 with pre-existing backups at every hour of the day before the age boundary. "
+         "For the size rule the instant a backup stands for (ts, ageh in the trace) is the driver's knowledge (instant of the "
+         "BackupFilename call / of the pre-existing backup), never decoded from the name with the package's own layout constant: "
+         "'newest' and 'older than' are judged in true time order, two files started 12 h apart must give two backups. Not covered: a run that spans local midnight; bursts in "
          "configurations where a backup created during the burst may itself be outdated; plain-text encoding and volume mode.",
     technique="TLA+ directory model + TLC-generated histories + TLC trace validation of the real logger's files",
     design="4/C19")
@@ -59,14 +66,15 @@ FINISH = dict(rule="histories = complete TLC enumeration (BFS over the history v
 
 def tla_cfg(c):
     return ('[rule |-> "%s", maxSize |-> %d, maxBackups |-> %d, days |-> %d, gzip |-> %s, delim |-> "%s", '
-            'names |-> "%s", pre |-> <<%s>>, precur |-> %d, via |-> "%s", pregz |-> "%s"]') % (
+            'names |-> "%s", pre |-> <<%s>>, precur |-> %d, via |-> "%s", pregz |-> "%s", rot |-> <<%s>>]') % (
         c["rule"], c["maxSize"], c["maxBackups"], c["days"], "TRUE" if c["gzip"] else "FALSE", c.get("delim", "-"),
-        c.get("names", "counter"), ", ".join(str(a) for a in c.get("pre", [])), c.get("precur", 0), c.get("via", ""), c.get("pregz", ""))
+        c.get("names", "counter"), ", ".join(str(a) for a in c.get("pre", [])), c.get("precur", 0), c.get("via", ""), c.get("pregz", ""),
+        ", ".join(str(a) for a in c.get("rot", [])))
 
 
-def C(rule, maxSize=0, maxBackups=0, days=0, gzip=False, pre=(), precur=0, names="counter", delim="-", via="", pregz=""):
+def C(rule, maxSize=0, maxBackups=0, days=0, gzip=False, pre=(), precur=0, names="counter", delim="-", via="", pregz="", rot=()):
     return dict(rule=rule, maxSize=maxSize, maxBackups=maxBackups, days=days, gzip=gzip, pre=list(pre), precur=precur,
-                names=names, delim=delim, via=via, pregz=pregz)
+                names=names, delim=delim, via=via, pregz=pregz, rot=list(rot))
 
 
 # ------------------------------------------------------------------------------- model check
@@ -234,7 +242,23 @@ def plans(ctx):
     FLOODS = [(300, 12, 4), (2000, 16, 3)]
     flood_confs = [C("size", 2 * KB), C("size", KB, gzip=True, days=2, pre=[73, 1]), C("size", MB),
                    C("daily"), C("daily", days=2, gzip=True, pre=[96, 24])]
+    # hour of the day (size rule; names "hours"): the k-th file is STARTED rot[k] hours (+30 min) after a base
+    # midnight (its backup carries that instant), the pre-existing backups stand for the hours `pre` after it (real
+    # RFC 3339 names): 00, 01, 09, 11, 12, 13, 14, 23 h on one date and across dates, file starts 12 h / 24 h apart.
+    # Which instant a backup stands for is the driver's knowledge, never decoded from its name: clean-up by maxBackups
+    # keeps the newest backups in TRUE time order; two files started 12 h apart give two backups, no record lost.
+    def H(maxBackups, pre, rot, gzip=False, delim="-"):
+        return C("size", 64, maxBackups=maxBackups, gzip=gzip, pre=pre, rot=rot, names="hours", delim=delim)
+    hour_confs = [H(2, (9, 10, 11), (13, 14, 23, 24, 25, 33)), H(2, (0, 1, 9), (11, 12, 13, 14, 23, 24)),
+                  H(0, (), (1, 13, 25, 37, 49, 61)), H(3, (1,), (13, 25, 37, 38, 48, 60)),
+                  H(1, (23, 24, 25), (36, 37, 48, 49, 57, 60), gzip=True), H(2, (13, 23), (33, 37, 49, 50, 60, 61), delim="_"),
+                  H(4, (0, 12, 13, 24, 36, 37), (38, 47, 48, 49, 59, 60), gzip=True)]
+    # age limit: pre-existing backups at EVERY hour of the day before the boundary (must stay) and two behind it
+    age_confs = [C("size", 64, days=2, pre=[73, 49] + list(range(47, 24, -1))),
+                 C("size", 64, days=2, maxBackups=30, gzip=True, pre=[73, 49] + list(range(47, 24, -1)))]
     P = []
+    P.append(dict(name="hours", confs=hour_confs, sizes=[32, 65], maxops=(5 if ctx.quick else 6), maxday=0))
+    P.append(dict(name="hourage", confs=age_confs, sizes=[32, 65], maxops=(3 if ctx.quick else 4), maxday=0))
     if ctx.quick:
         P.append(dict(name="flood", confs=flood_confs, sizes=[], maxops=2, maxday=1, floods=FLOODS, shards=8, chunk=50))
         P.append(dict(name="boundary", confs=bound_confs, sizes=[40], maxops=3, maxday=1))
@@ -343,6 +367,9 @@ def run(ctx):
               "public_slow", "public_stat", "burst_records", "closeq_records", "flood_bursts", "flood_closeq"):
         if tot.get(k, 0) == 0:
             raise core.Infra("vacuous run: %s = 0 (%s)" % (k, tot))
+    # hour-of-day family: files started in both halves of the day (01..12 h and 00, 13..23 h) were rotated
+    if tot.get("hours_cases", 0) == 0 or tot.get("hours_am_names", 0) == 0 or tot.get("hours_pm_names", 0) == 0:
+        raise core.Infra("vacuous run: hour-of-day family not exercised on both halves of the day: %s" % tot)
     if tot.get("config_path_size", 0) == 0 or tot.get("config_path_daily", 0) == 0 or tot.get("config_rotations", 0) < 3:
         raise core.Infra("vacuous run: the logging-configuration path (size and daily) was not exercised: %s" % tot)
     # the floods are there to make the single producer outrun the writer: at least some of them must have found
